@@ -309,6 +309,21 @@ func (ex *Exec) main() {
 	firedTop := map[int]bool{}
 	planned := len(p.Nodes)
 	_ = planned
+	seenStart := map[string]int{}
+	c.OnStart = func(call simnet.Call) {
+		if ex.quietPhase {
+			return
+		}
+		seenStart[call.Method]++
+		for ti := range p.Triggers {
+			tr := p.Triggers[ti]
+			if tr.AtStart && tr.Nth > 0 && tr.OnMethod == call.Method && tr.Nth == seenStart[call.Method] {
+				simrt.Probe("trigger-at-start/" + call.Method)
+				ex.trigActive++
+				simrt.GoGroup(fmt.Sprintf("h:trigger%d", ti), "", func() { defer func() { ex.trigActive-- }(); ex.fire(tr, call) })
+			}
+		}
+	}
 	c.OnReply = func(call simnet.Call) {
 		ex.observeMembership(call)
 		ex.observeError(call)
@@ -345,7 +360,7 @@ func (ex *Exec) main() {
 				}
 				continue
 			}
-			if tr.Nth > 0 && tr.OnMethod == call.Method && tr.Nth == seenRPC[call.Method] {
+			if !tr.AtStart && tr.Nth > 0 && tr.OnMethod == call.Method && tr.Nth == seenRPC[call.Method] {
 				ex.trigActive++
 				simrt.GoGroup(fmt.Sprintf("h:trigger%d", ti), "", func() { defer func() { ex.trigActive-- }(); ex.fire(tr, call) })
 			}
